@@ -19,8 +19,31 @@ assert os.path.dirname(cffi.__file__).startswith(os.environ["VERIF_SCRATCH"]), c
 warnings.simplefilter("ignore")
 
 
+COV_FILES = {"recompiler.py": "Recompiler", "cffi_opcode.py": "Opcode", "model.py": "ModelPy", "cparser.py": "CParser"}
+COV_HITS = set()
+INCLUDED = None
+
+
+def tracer(frame, event, arg):
+    tag = COV_FILES.get(os.path.basename(frame.f_code.co_filename))
+    if tag is None or os.path.dirname(frame.f_code.co_filename) != os.path.dirname(cffi.__file__):
+        return None
+
+    def local(frame, event, arg):
+        if event == "line":
+            COV_HITS.add((tag, frame.f_lineno))
+        return local
+    COV_HITS.add((tag, frame.f_lineno))
+    return local
+
+
 def make_ffi(cdef, name, preamble):
     ffi = cffi.FFI()
+    if INCLUDED:
+        base = cffi.FFI()
+        base.cdef(INCLUDED)
+        base.set_source("_c23_base", None if preamble is None else "")
+        ffi.include(base)
     if preamble is None:        # ABI mode: extern "Python" is not allowed
         cdef = "".join(l for l in cdef.splitlines(True) if not l.startswith('extern "Python"'))
     ffi.cdef(cdef)
@@ -35,6 +58,18 @@ def emit_text(ffi, mode):
 
 
 def do_emit(c):
+    global INCLUDED
+    INCLUDED = c.get("included")
+    try:
+        if c.get("cov"):
+            sys.settrace(tracer)
+        return do_emit1(c)
+    finally:
+        sys.settrace(None)
+        INCLUDED = None
+
+
+def do_emit1(c):
     out = {}
     for mode in ("c", "py"):
         pre = c["preamble"] if mode == "c" else None
@@ -239,7 +274,7 @@ def main(payload):
             results.append(do_emit(c) if c["kind"] == "emit" else do_write(c, i))
         except cffi.CDefError as e:
             results.append(dict(cdef_error=str(e)[:300]))
-    return dict(results=results)
+    return dict(results=results, cov=sorted(COV_HITS))
 
 
 if __name__ == "__main__":
